@@ -84,7 +84,7 @@ def sig_of(step):
 def first_panic(out):
     m = re.search(r"^(panic: .*|fatal error: .*)$", out, re.M)
     where = re.findall(r"^\s+(/\S+\.go:\d+)", out, re.M)
-    site = next((w for w in where if "/repo/" in w or "weshnet" in w and "vf_" not in w), where[0] if where else "")
+    site = next((w for w in where if w.startswith(vf.REPO.rstrip("/") + "/") and "vf_" not in w), where[0] if where else "")
     return ((m.group(1) if m else "process died") + (" at " + site if site else ""))[:300]
 
 
